@@ -169,7 +169,7 @@ PROPS["C09"] = {
     "kani": [],
     "witness_always": ["texlang_parse_num", "stdlib_totality"],
     "witness_fns": {"texlang_parse_num": ["parse_impl", "parse_constant", "scan_dimen"]},
-    "witness_bound": {"stdlib_totality": "real VM + stdlib: 9 extreme \\count x 26 uses, 7 extreme \\dimen x 20 uses, \\the on 7 kinds of non-variables, 60 erroring programs incl. non-ASCII lines, a non-ASCII OFFENDING token, the ^^ notation at the end of a line / of the input with and without an end-of-line character, and inputs that END inside a construct after multi-byte lines, each in all four interaction modes and by default (error rendered to text); primitive grid: each of 51 installed primitives x 62 argument shapes x {batch mode, default}, every ordered pair of primitives, and every primitive followed by \\noexpand / \\expandafter and a primitive or macro (14331 programs); 15000 (thorough: 120000) pseudo-random token soups of <= 10 tokens over a 91-word vocabulary (primitives incl. \\input / \\openin / \\read / \\def, three macros, braces, numbers at the limits, units, #, ~, line ends, ^^ forms, non-ASCII) in batch, scroll, nonstop and errorstop mode in turn: success or structured error, never a panic", "texlang_parse_num": "real VM scanners on numbers at and beyond every limit (i32 boundaries in 3 radices, dimensions at +-2^30 sp, character codes incl. surrogates): value or recoverable error, never a panic"},
+    "witness_bound": {"stdlib_totality": "real VM + stdlib: 12 alphabetic constants (TeX 442: the token after ` is read without expansion - macro, primitive, undefined, active character); 9 extreme \\count x 26 uses, 7 extreme \\dimen x 20 uses, \\the on 7 kinds of non-variables, 60 erroring programs incl. non-ASCII lines, a non-ASCII OFFENDING token, the ^^ notation at the end of a line / of the input with and without an end-of-line character, and inputs that END inside a construct after multi-byte lines, each in all four interaction modes and by default (error rendered to text); primitive grid: each of 51 installed primitives x 62 argument shapes x {batch mode, default}, every ordered pair of primitives, and every primitive followed by \\noexpand / \\expandafter and a primitive or macro (14331 programs); 15000 (thorough: 120000) pseudo-random token soups of <= 10 tokens over a 91-word vocabulary (primitives incl. \\input / \\openin / \\read / \\def, three macros, braces, numbers at the limits, units, #, ~, line ends, ^^ forms, non-ASCII) in batch, scroll, nonstop and errorstop mode in turn: success or structured error, never a panic", "texlang_parse_num": "real VM scanners on numbers at and beyond every limit (i32 boundaries in 3 radices, dimensions at +-2^30 sp, character codes incl. surrogates): value or recoverable error, never a panic"},
     "unverified_callers": [
         "FUNCTIONS UNDER CONTRACT ONLY: the safety obligations (no overflow, out-of-bounds, failed unwrap/expect, unreachable!, division by zero, for all inputs meeting the stated precondition) of the functions listed in coverage.functions_under_contract. NOT covered: VM::run_impl, the.rs, error rendering (error/display.rs), filelocation.rs, every primitive not listed - 'never panics' is NOT claimed for the interpreter as a whole",
         "shutdown-protocol consistency (ShutdownStatus transitions) is a whole-history property of arbitrary function-pointer callees: not decided",
